@@ -309,6 +309,7 @@ class Engine:
         self.fmt_cache = {}
         self.nd = []
         self.drop_impls = False
+        self.immutable = {}
         self.solver = z3.Solver()
         self.functions_executed = set()
         self.callees_modelled = set()
@@ -944,8 +945,10 @@ class Engine:
         return d == z3.BitVecVal(k, d.size())
 
     def heap_read(self, ctx, obj, path, ty, atomic, order, label):
-        sort = self.shape(ty)
         path = self.norm_path(path)
+        if isinstance(obj, int) and (obj, path) in self.immutable:
+            return self.immutable[(obj, path)]        # a field that is never written after construction (e.g. a Box pointer): no event
+        sort = self.shape(ty)
         v = ctx.mem_read(obj, path, sort, atomic=atomic, order=order, label=label)
         return self.from_scalar(v, sort, ty)
 
@@ -1523,6 +1526,10 @@ class Engine:
             except StopIteration as stop:
                 r2 = self.finish_call(c, c.frames[-1], stop.value, dest, ret_bb)
                 out.extend(r2 if r2 is not None else [("ctx", c)])
+                continue
+            if req[0] == "observe":
+                c.observe(req[1], **req[2])
+                work.append((c, replay + [None]))
                 continue
             if req[0] != "callv":
                 raise Unsupported(f"model script request {req[0]}")
